@@ -16,6 +16,7 @@ from mc.partition import partition_oracles
 from props.c11 import cell_stats, _moments, _se
 
 ID = "C17"
+CHUNK = 150
 RULE = ("states = (multiset of <=N respondents, insertion config, filter-statistics shape (13), "
         "population in {None,0,1,1000}); non-trivial = population > 0, fraction finite and some "
         "estimate > 0; distinct = distinct (fraction, estimates)")
